@@ -22,8 +22,11 @@ package internal
 //@   requires in != nil && out != nil && 0 <= fetched(in) && fetched(in) <= N(in) && 0 <= wlen(out)
 //@   gvar flushed int = zero
 //@   gvar flushErr error = zero
+//@   gvar unconsumed int = zero
 //@   update after-call Write#1: flushed := ret0; flushErr := ret1
-//@   assert after-call ScanSnapshot#1: [forwardedBytesAreOriginalBytesInOrder C02 C07 needs=streamResumesExactly+forwardedIsStreamPrefix+fetchedGrows] forall j :: pre(wlen(out)) <= j && j < wlen(out) ==> wdata(out)[j] == S(old(in), N(old(in)) - (N(in) - pre(fetched(in))) + (j - pre(wlen(out))))
+//@   update after-call ScanSnapshot#1: unconsumed := len(ret1)
+//@   assert after-call MultiReader#1: [scanningResumesAtFirstUnconsumedByte C07] N(ret0) - fetched(ret0) == unconsumed + (N(in) - fetched(in))
+//@   assert after-call ScanSnapshot#1: [forwardedBytesAreOriginalBytesInOrder C02 C07 needs=streamResumesExactly+forwardedIsStreamPrefix+fetchedGrows+nothingBeforeForwardedIsHeld] forall j :: pre(wlen(out)) <= j && j < wlen(out) ==> wdata(out)[j] == S(old(in), N(old(in)) - (N(in) - pre(fetched(in))) + (j - pre(wlen(out))))
 //@   at-return [remainderFlushedAtEndOfInput C02] result == nil && len(suffix) != 0 ==> flushed == len(suffix) && flushErr == nil
 //@   loop 0: invariant [streamResumesExactly C02 C07] in != nil && out == old(out) && 0 <= fetched(in) && fetched(in) <= N(in) && 0 <= wlen(out) && N(in) - fetched(in) <= N(old(in)) - old(fetched(old(in))) && (forall k :: 0 <= k && k < N(in) - fetched(in) ==> S(in, fetched(in) + k) == S(old(in), N(old(in)) - (N(in) - fetched(in)) + k))
 //@   loop 0: decreases N(in) - fetched(in)
